@@ -48,6 +48,27 @@ pub struct Chan {
     pub seen_eof: bool,
     pub seen_rerr: bool,
     pub seen_werr: bool,
+    /// hostile-but-legal readiness (Some(state of an LCG)): a poll may answer Pending after waking its own waker (what a
+    /// runtime's cooperative budget does), and a waker registered earlier may be kept and woken again later (what tokio's
+    /// readiness re-check does); never twice in a row, so every operation still completes
+    pub jitter: Option<u64>,
+    pub jitter_writes: bool,
+    pub yielded_r: bool,
+    pub yielded_w: bool,
+    pub kept: Vec<Waker>,
+    pub yields: u64,
+}
+
+impl Chan {
+    fn flip(&mut self, one_in: u64) -> bool {
+        match self.jitter.as_mut() {
+            None => false,
+            Some(st) => {
+                *st = st.wrapping_mul(6364136223846793005).wrapping_add(1442695040888963407);
+                (*st >> 33) % one_in == 0
+            }
+        }
+    }
 }
 
 #[derive(Clone, Default)]
@@ -76,6 +97,20 @@ impl AsyncRead for R {
         }
         let mut c = self.0 .0.lock().unwrap();
         c.reads += 1;
+        if c.jitter.is_some() {
+            if !c.yielded_r && c.flip(4) {
+                c.yielded_r = true;
+                c.yields += 1;
+                drop(c);
+                bump();
+                cx.waker().wake_by_ref();
+                return Poll::Pending;
+            }
+            c.yielded_r = false;
+            if c.kept.len() < 3 && c.flip(3) {
+                c.kept.push(cx.waker().clone());
+            }
+        }
         while let Some(f) = c.segs.front() {
             if f.is_empty() {
                 c.segs.pop_front();
@@ -120,6 +155,17 @@ impl AsyncWrite for W {
             bump();
             return Poll::Ready(Err(k.into()));
         }
+        if c.jitter.is_some() && c.jitter_writes {
+            if !c.yielded_w && c.flip(5) {
+                c.yielded_w = true;
+                c.yields += 1;
+                drop(c);
+                bump();
+                cx.waker().wake_by_ref();
+                return Poll::Pending;
+            }
+            c.yielded_w = false;
+        }
         let mut n = match c.credit {
             None => data.len(),
             Some(0) => {
@@ -157,15 +203,24 @@ impl H {
         H(Arc::new(Mutex::new(Chan::default())))
     }
     fn wake_r(&self, f: impl FnOnce(&mut Chan)) {
-        let w = {
+        let (w, kept) = {
             let mut c = self.0.lock().unwrap();
             f(&mut c);
-            c.rwaker.take()
+            (c.rwaker.take(), std::mem::take(&mut c.kept))
         };
         bump();
         if let Some(w) = w {
             w.wake();
         }
+        // late wake-ups of wakers the transport was handed earlier
+        for k in kept {
+            k.wake();
+        }
+    }
+    pub fn set_jitter(&self, seed: u64, writes: bool) {
+        let mut c = self.0.lock().unwrap();
+        c.jitter = Some(seed | 1);
+        c.jitter_writes = writes;
     }
     fn wake_w(&self, f: impl FnOnce(&mut Chan)) {
         let w = {
